@@ -1695,3 +1695,16 @@ MUTANTS += [
  dict(id='R14-nil-guard-dropped-at-confirm', props=['C15'], expect='R-SIDECAR-NIL-GUARD/sidecar-nil/',
       edits=[(MS, 'if state.sidecar == nil {\n\t\t\t// No resume metadata was attached when the file began: nothing is', 'if state.sidecar == nil && state.totalChunks == 0 {\n\t\t\t// No resume metadata was attached when the file began: nothing is')]),
 ]
+# ---- round 15 ----
+MUTANTS += [
+ dict(id='R15-benign-clearing-only-with-reservations', props=['C04', 'C05', 'C06'], expect='SILENT',
+      edits=[(SC, '\tfor _, u := range s.unconfirmed {\n\t\tif int(u/8) < len(bitmap) {\n\t\t\tbitmap[u/8] &^= 1 << (u % 8)\n\t\t}\n\t}\n', '\tif len(s.unconfirmed) > 0 {\n\t\tfor _, u := range s.unconfirmed {\n\t\t\tif int(u/8) < len(bitmap) {\n\t\t\t\tbitmap[u/8] &^= 1 << (u % 8)\n\t\t\t}\n\t\t}\n\t}\n')]),
+ dict(id='R15-clearing-only-when-dirty-bits', props=['C05'], expect='R-UNCONFIRMED-NOT-CLAIMED/unconfirmed/flush/unconditional',
+      edits=[(SC, '\tfor _, u := range s.unconfirmed {\n\t\tif int(u/8) < len(bitmap) {\n\t\t\tbitmap[u/8] &^= 1 << (u % 8)\n\t\t}\n\t}\n', '\tif s.bitmap.CountSet() > 0 && s.TotalChunks > 1 {\n\t\tfor _, u := range s.unconfirmed {\n\t\t\tif int(u/8) < len(bitmap) {\n\t\t\t\tbitmap[u/8] &^= 1 << (u % 8)\n\t\t\t}\n\t\t}\n\t}\n')]),
+ dict(id='R15-benign-intact-mirrored', props=['C01', 'C06'], expect='SILENT',
+      edits=[(MS, '\t\t// length before it is created or resized below.\n\t\tdataFileIntact := false\n\t\tif st, statErr := os.Stat(filePath); statErr == nil && st.Size() == int64(begin.FileSize) {', '\t\t// length before it is created or resized below.\n\t\tdataFileIntact := false\n\t\tif st, statErr := os.Stat(filePath); statErr == nil && int64(begin.FileSize) == st.Size() {')]),
+ dict(id='R15-benign-turn-password-two-steps', props=['C16'], expect='SILENT',
+      edits=[(ICE, '\t\tif pwd, ok := u.User.Password(); ok {\n\t\t\tpassword = pwd\n\t\t}\n', '\t\tpwd, ok := u.User.Password()\n\t\tif ok {\n\t\t\tpassword = pwd\n\t\t}\n')]),
+ dict(id='R15-role-shifted', props=['C08'], expect='R-AUTH-ROLE-WHOLE-BYTE/auth-role/',
+      edits=[(TA, '\trole := buf[1]\n', '\trole := buf[1] % 4\n')]),
+]
